@@ -16,7 +16,7 @@ def run(ctx):
         seen, keep = set(), []
         for i, b in enumerate(base):
             k = (b["id"].split("-")[0], b["kind"])
-            if k not in seen or i % 3 == ctx.seed % 3:
+            if k not in seen or i % 3 == ctx.seed % 3 or len(b["frame"]) > 300:      # the few long frames (large option areas) always stay
                 keep.append(b)
             seen.add(k)
         base = keep
@@ -26,7 +26,7 @@ def run(ctx):
         if q and r["kind"] not in ("flowstats", "flowstats-instr", "hello", "flowmod"):
             continue
         base.append(dict(id=r["id"], entry="Parse", kind=r["kind"], frame=r["frame"], win=[24, 64] if q else r["win"]))
-    sp, nb, nm = totality.mutate(ctx, base, "of", depth2=not q, maxlen=300 if q else 1200)
+    sp, nb, nm = totality.mutate(ctx, base, "of", depth2=not q, maxlen=480 if q else 1200)
     tr, recs = totality.run(ctx, sp, "of")
     ctx.extra.update(base_frames=nb, mutants=nm, distinct_nontrivial=nm)
     ctx.judged = nm
